@@ -103,6 +103,35 @@ def ob_serialise(h):
         h.check("both_reported_hot", h.eq(tp["hot_temp"], hot))
 
 
+def ob_record(h):
+    """From the results dictionary of a direct integration to the record and its serialised summary: the two pinch temperatures arrive
+    unchanged whatever their value (zero and negative temperatures included); an absent pinch stays absent."""
+    from OpenPinch.classes.zone import Zone
+    z = Zone(name="Z")
+    kind = h.choice("pinch", ["both", "none"])
+    th, tc = (h.real("hot_pinch"), h.real("cold_pinch")) if kind == "both" else (None, None)
+    if kind == "both":
+        h.assume(th >= tc)
+    z.add_target_from_results("Direct Integration", {"hot_pinch": th, "cold_pinch": tc, "hot_utility_target": h.real("Qh"), "cold_utility_target": h.real("Qc"),
+                                                     "heat_recovery_target": h.real("Qr")})
+    t = z.targets["Z/Direct Integration"]
+    if kind == "both":
+        h.check("record_keeps_hot_pinch", h.eq(t.hot_pinch, th))
+        h.check("record_keeps_cold_pinch", h.eq(t.cold_pinch, tc))
+        tp = t.serialize_json()["temp_pinch"]
+        if abs(th - tc) < tol:
+            h.check("summary_collapses_equal_pinches", set(k for k, v in tp.items() if v is not None) == {"cold_temp"})
+            h.check("summary_keeps_value", h.eq(tp["cold_temp"], tc))
+        else:
+            h.check("summary_reports_both", tp.get("cold_temp") is not None and tp.get("hot_temp") is not None)
+            if tp.get("cold_temp") is not None and tp.get("hot_temp") is not None:
+                h.check("summary_keeps_value", And(h.eq(tp["cold_temp"], tc), h.eq(tp["hot_temp"], th)))
+    else:
+        h.check("absent_stays_absent", t.hot_pinch is None and t.cold_pinch is None)
+        tp = t.serialize_json()["temp_pinch"]
+        h.check("absent_stays_absent", tp.get("cold_temp") is None and tp.get("hot_temp") is None)
+
+
 def _call_serialise(t, hot, cold, h):
     from types import SimpleNamespace
     fake = SimpleNamespace(name="Z/DI", degree_of_int=None, hot_utility_target=h.real("Qh"), cold_utility_target=h.real("Qc"),
@@ -121,6 +150,8 @@ def obligations():
         Obligation("C06.idx7.b", _ob_idx(7), kind="bounded", tier="thorough", bound="residual columns of 2..7 rows", functions=fs, max_paths=400000),
         unbounded.pinch_obligation("C06.idx.u"),
         Obligation("C06.idx.column.b", ob_other_column, kind="bounded", bound="2..4 rows; column named by enum member or text", functions=fs),
+        Obligation("C06.record", ob_record, kind="proof", functions=[EnergyTarget.serialize_json], expect=("record_keeps_hot_pinch", "summary_keeps_value"),
+                   doc="results dictionary -> EnergyTarget -> serialised summary keeps both pinch temperatures for every real value (path-complete)"),
         Obligation("C06.serialise", ob_serialise, kind="proof", functions=[EnergyTarget.serialize_json], expect=("collapsed_value", "both_reported_hot"),
                    doc="the record's pinch block carries the two temperatures; equal pinches collapse to one field (path-complete)"),
     ]
